@@ -6,6 +6,7 @@ VIOLATION (and whether with a concrete failing input), then restores /repo.  Nev
 """
 import json, os, subprocess, sys, concurrent.futures, re, time
 ROOT = os.path.dirname(os.path.abspath(__file__))
+REPO = os.environ.get("VERIF_REPO", "/repo")
 
 def run(pid):
     t0 = time.time()
@@ -20,9 +21,9 @@ def main():
         props = sys.argv[sys.argv.index("--props") + 1].split(",")
     m = json.load(open(os.path.join(ROOT, "MANIFEST.json")))
     pids = props or [c["property_id"] for c in m["checks"]]
-    st = subprocess.run(["git", "-C", "/repo", "status", "--porcelain"], capture_output=True, text=True).stdout.strip()
+    st = subprocess.run(["git", "-C", REPO, "status", "--porcelain", "--untracked-files=no"], capture_output=True, text=True).stdout.strip()
     assert st == "", "/repo is not clean: " + st
-    subprocess.check_call(["git", "-C", "/repo", "apply", patch])
+    subprocess.check_call(["git", "-C", REPO, "apply", patch])
     res = {}
     try:
         # first one alone (rebuilds the harness), the rest in parallel
@@ -31,7 +32,7 @@ def main():
             for r in ex.map(run, pids[1:]):
                 res[r[0]] = r
     finally:
-        subprocess.check_call(["git", "-C", "/repo", "checkout", "--", "."])
+        subprocess.check_call(["git", "-C", REPO, "checkout", "--", "."])
     out = {}
     for pid in pids:
         _, rc, v, dt = res[pid]
